@@ -14,7 +14,7 @@ TRUST = ('trusted base: the reference banner grammar (RFC 4253 section 4.2) in t
 TECHNIQUE = 'deterministic simulation with seeded stream segmentation (line-boundary and inside-line), reference-grammar oracle, round-trip through a second invocation'
 LEVEL = 'exploration'
 BUDGET = {'quick': 200, 'thorough': 2400}
-NCASES = {'quick': 700, 'thorough': 14000}
+NCASES = {'quick': 1400, 'thorough': 14000}
 RULE = ('cases: (grammar branch vector, header lines, byte injection, segmentation class). non-trivial: banner accepted or rejected with >= 1 header line or a non-default grammar '
         'branch; distinct by grammar-branch vector x segmentation class.')
 ASSUMPTIONS = ['minor versions are written without leading zeros; injected control bytes exclude those Python treats as whitespace']
